@@ -606,6 +606,17 @@ def run_bumps(tier="quick", seed=0):
                     if r1[0] == 0 or r1[1].strip():
                         bad("index-out-of-range-accepted", f"`zerv … {' '.join(arg)}` (section of {n} components) gives status {r1[0]} and prints "
                                                            f"{r1[1].decode('utf-8', 'replace').strip()!r}; an out-of-range index must be rejected without output")
+        # "invalid targets (… duplicate index …) are rejected without output": the same position addressed twice in one list, in the same and in
+        # different spellings (plain, negative, tilde)
+        dups = [["--bump-core", "1", "--bump-core", "1=4"], ["--bump-core", "1", "--bump-core", "~2=4"], ["--bump-core", "1=4", "--bump-core", "~2"],
+                ["--bump-core=2", "--bump-core=-1"], ["--bump-core", "~1", "--bump-core=-1"], ["--core", "1=5", "--core", "~2=7"], ["--core", "0=5", "--core=-3=7"],
+                ["--bump-extra-core", "0", "--bump-extra-core", "~4"], ["--extra-core", "3=5", "--extra-core=-1=7"]]
+        for arg in dups:
+            res["cases"] += 1
+            r1 = _run(zerv, base + arg, None, work, env)
+            if r1[0] == 0 or r1[1].strip():
+                bad("duplicate-index-accepted", f"`zerv … {' '.join(arg)}` addresses one position twice but gives status {r1[0]} and prints "
+                                                f"{r1[1].decode('utf-8', 'replace').strip()!r}; a duplicate index must be rejected without output")
     finally:
         shutil.rmtree(work, ignore_errors=True)
     res["wall_s"] = round(time.time() - t0, 2)
